@@ -54,6 +54,7 @@ import (
 	hraft "github.com/hashicorp/raft"
 	cid "github.com/ipfs/go-cid"
 	ds "github.com/ipfs/go-datastore"
+	query "github.com/ipfs/go-datastore/query"
 	libp2p "github.com/libp2p/go-libp2p"
 	crypto "github.com/libp2p/go-libp2p-core/crypto"
 	peer "github.com/libp2p/go-libp2p-core/peer"
@@ -106,6 +107,10 @@ type script struct {
 	Old   []string   `json:"old"`
 	Book  []bookEnt  `json:"book"`
 	Junk  []junkLine `json:"junk"`
+	Fault int        `json:"fault"`
+	Iters int        `json:"iters"`
+	NA    int        `json:"na"`
+	NB    int        `json:"nb"`
 	NT    bool       `json:"nontrivial"`
 }
 
@@ -485,6 +490,9 @@ func (e *env) runXfer(s *script) error {
 	tgtPins := n.pins(s.Tgt0)
 	src := n.projAll(srcPins)
 
+	if s.Path == "serial" && s.Fault > 0 {
+		return e.runMarshalFault(s, n, dir, srcPins, src)
+	}
 	if s.Path == "serial" {
 		rng := rand.New(rand.NewSource(h64("serial", e.seed, s.ID)))
 		// (1) dsstate Marshal -> Unmarshal, source and target under seeded namespaces
@@ -553,63 +561,106 @@ func (e *env) runXfer(s *script) error {
 		return nil
 	}
 
-	_, idA := keyFor("xferA", e.seed, s.ID)
+	// export / import rounds: every import, re-export and read goes through ONE target manager
 	privB, idB := keyFor("xferB", e.seed, s.ID)
-	identA, identB := &config.Identity{ID: idA}, &config.Identity{ID: idB}
-	da, db := filepath.Join(dir, "a"), filepath.Join(dir, "b")
-	os.MkdirAll(da, 0700)
+	identB := &config.Identity{ID: idB}
+	db := filepath.Join(dir, "b")
 	os.MkdirAll(db, 0700)
-	if s.SKind == "" {
-		s.SKind = s.Kind
-	}
-	ma_, cfA, err := stateMgr(s.SKind, da, identA, h64("nsA", e.seed, s.ID)%4 == 0)
-	if err != nil {
-		return err
-	}
 	mb, cfB, err := stateMgr(s.Kind, db, identB, h64("nsB", e.seed, s.ID)%4 == 0)
 	if err != nil {
 		return err
 	}
-	if err := populate(s.SKind, ma_, cfA, identA, srcPins); err != nil {
-		return fmt.Errorf("populate source: %v", err)
-	}
 	if err := populate(s.Kind, mb, cfB, identB, tgtPins); err != nil {
 		return fmt.Errorf("populate target: %v", err)
 	}
-	var buf bytes.Buffer
-	expErr := guard(func() error { return ma_.ExportState(&buf) })
-	// what is in the stream
-	stream := []entry{}
-	dec := json.NewDecoder(bytes.NewReader(buf.Bytes()))
-	for {
-		var p api.Pin
-		err := dec.Decode(&p)
-		if err == io.EOF {
-			break
-		}
-		if err != nil {
-			if expErr == nil {
-				expErr = fmt.Errorf("stream does not decode: %v", err)
+	steps := s.Steps
+	if len(steps) == 0 { // old script format: one round
+		steps = []step{{Act: "Export", Ps: s.Src}, {Act: "Import"}}
+	}
+	skinds := []string{"raft", "crdt-leveldb", "raft", "crdt-badger", "crdt-leveldb"}
+	rng := rand.New(rand.NewSource(h64("rounds", e.seed, s.ID)))
+	decode := func(b []byte, opErr error) ([]entry, error) {
+		stream := []entry{}
+		dec := json.NewDecoder(bytes.NewReader(b))
+		for {
+			var p api.Pin
+			err := dec.Decode(&p)
+			if err == io.EOF {
+				break
 			}
-			break
+			if err != nil {
+				if opErr == nil {
+					opErr = fmt.Errorf("stream does not decode: %v", err)
+				}
+				break
+			}
+			stream = append(stream, n.proj(&p))
 		}
-		stream = append(stream, n.proj(&p))
+		return stream, opErr
 	}
-	e.emit("sid", s.ID, "m", "xfer", "act", "Export", "kind", s.Kind, "skind", s.SKind, "src", src, "stream", stream, "err", errStr(expErr))
-
-	pre, err := listMgr(mb)
-	if err != nil {
-		return fmt.Errorf("list target before import: %v", err)
+	var buf bytes.Buffer
+	var stream, cur []entry
+	skind := s.SKind
+	round := 0
+	for _, st := range steps {
+		switch st.Act {
+		case "Export": // on another peer ("elsewhere"), a fresh one per round
+			round++
+			if round > 1 || skind == "" {
+				skind = skinds[rng.Intn(len(skinds))]
+			}
+			_, idA := keyFor("xferA", e.seed, s.ID, round)
+			identA := &config.Identity{ID: idA}
+			da := filepath.Join(dir, fmt.Sprintf("a%d", round))
+			os.MkdirAll(da, 0700)
+			ma_, cfA, err := stateMgr(skind, da, identA, h64("nsA", e.seed, s.ID, round)%4 == 0)
+			if err != nil {
+				return err
+			}
+			pins := n.pins(st.Ps)
+			if round > 1 { // later rounds carry other values than the first
+				pins = nil
+				for _, a := range st.Ps {
+					pins = append(pins, n.pin(a.C, fmt.Sprintf("%s.r%d", a.V, round)))
+				}
+			}
+			if err := populate(skind, ma_, cfA, identA, pins); err != nil {
+				return fmt.Errorf("populate source: %v", err)
+			}
+			cur = n.projAll(pins)
+			buf.Reset()
+			expErr := guard(func() error { return ma_.ExportState(&buf) })
+			stream, expErr = decode(buf.Bytes(), expErr)
+			e.emit("sid", s.ID, "m", "xfer", "act", "Export", "kind", s.Kind, "skind", skind, "src", cur, "stream", stream,
+				"err", errStr(expErr), "round", round)
+		case "Import":
+			pre, err := listMgr(mb)
+			if err != nil {
+				return fmt.Errorf("list target before import: %v", err)
+			}
+			impErr := guard(func() error { return mb.ImportState(bytes.NewReader(buf.Bytes())) })
+			post, err := listMgr(mb)
+			if err != nil && impErr == nil {
+				impErr = fmt.Errorf("target unreadable after import: %v", err)
+			}
+			e.emit("sid", s.ID, "m", "xfer", "act", "Import", "kind", s.Kind, "skind", skind, "src", cur, "stream", stream,
+				"pre", n.projAll(pre), "post", n.projAll(post), "err", errStr(impErr), "round", round)
+		case "ReExport": // the manager that imported exports: the stream must be what it holds
+			held, err := listMgr(mb)
+			if err != nil {
+				return fmt.Errorf("list target before re-export: %v", err)
+			}
+			var b2 bytes.Buffer
+			expErr := guard(func() error { return mb.ExportState(&b2) })
+			st2, expErr := decode(b2.Bytes(), expErr)
+			e.emit("sid", s.ID, "m", "xfer", "act", "Export", "kind", s.Kind, "skind", s.Kind, "src", n.projAll(held), "stream", st2,
+				"err", errStr(expErr), "round", round, "reexport", true)
+		default:
+			return fmt.Errorf("xfer: unknown action %q", st.Act)
+		}
 	}
-	impErr := guard(func() error { return mb.ImportState(bytes.NewReader(buf.Bytes())) })
-	post, err := listMgr(mb)
-	if err != nil && impErr == nil {
-		impErr = fmt.Errorf("target unreadable after import: %v", err)
-	}
-	e.emit("sid", s.ID, "m", "xfer", "act", "Import", "kind", s.Kind, "skind", s.SKind, "src", src, "stream", stream,
-		"pre", n.projAll(pre), "post", n.projAll(post), "err", errStr(impErr))
 	// the imported state is a Raft snapshot: a peer started on it must hold the pinset
-	if s.Kind == "raft" && impErr == nil && (hx.Thorough() || h64("startpeer", e.seed, s.ID)%3 == 0) {
+	if s.Kind == "raft" && round > 0 && (hx.Thorough() || h64("startpeer", e.seed, s.ID)%3 == 0) {
 		got, opErr, infra := startPeer(cfB.Raft.GetDataFolder(), privB, cfB.Raft.DatastoreNamespace, nil)
 		if infra != nil {
 			got, opErr, infra = startPeer(cfB.Raft.GetDataFolder(), privB, cfB.Raft.DatastoreNamespace, nil)
@@ -617,7 +668,104 @@ func (e *env) runXfer(s *script) error {
 		if infra != nil {
 			return infra
 		}
-		e.emit("sid", s.ID, "m", "xfer", "act", "StartPeer", "saved", src, "got", n.projAll(got), "err", errStr(opErr), "afterimport", true)
+		e.emit("sid", s.ID, "m", "xfer", "act", "StartPeer", "saved", cur, "got", n.projAll(got), "err", errStr(opErr), "afterimport", true)
+	}
+	return nil
+}
+
+// faultyDS is a datastore whose queries yield an error in place of their k-th result.
+type faultyDS struct {
+	ds.Datastore
+	k int
+}
+
+func (f *faultyDS) Query(q query.Query) (query.Results, error) {
+	res, err := f.Datastore.Query(q)
+	if err != nil {
+		return nil, err
+	}
+	all, err := res.Rest()
+	if err != nil {
+		return nil, err
+	}
+	out := make([]query.Result, 0, len(all))
+	for i, en := range all {
+		if i+1 == f.k {
+			out = append(out, query.Result{Error: fmt.Errorf("verif: injected failure of query result %d", f.k)})
+			continue
+		}
+		out = append(out, query.Result{Entry: en})
+	}
+	i := 0
+	return query.ResultsFromIterator(q, query.Iterator{
+		Next: func() (query.Result, bool) {
+			if i >= len(out) {
+				return query.Result{}, false
+			}
+			i++
+			return out[i-1], true
+		},
+		Close: func() error { return nil },
+	}), nil
+}
+
+// runMarshalFault: Marshal (directly, and under SnapshotSave) and List (what ExportState does) over a
+// datastore whose query fails at the k-th result.  Outcome: ok + what the dump deserialises to.
+func (e *env) runMarshalFault(s *script, n *names, dir string, srcPins []*api.Pin, src []entry) error {
+	ctx := context.Background()
+	ns := namespaces[int(h64("fns", e.seed, s.ID)%int64(len(namespaces)))]
+	for _, via := range []string{"dsstate", "snapshot", "list"} {
+		fds := &faultyDS{Datastore: inmem.New(), k: s.Fault}
+		a2, err := dsstate.New(fds, ns, dsstate.DefaultHandle())
+		if err != nil {
+			return err
+		}
+		for _, p := range srcPins {
+			if err := a2.Add(ctx, p); err != nil {
+				return err
+			}
+		}
+		var got []*api.Pin
+		var opErr error
+		switch via {
+		case "dsstate":
+			var buf bytes.Buffer
+			opErr = guard(func() error { return a2.Marshal(&buf) })
+			if opErr == nil {
+				b, err := dsstate.New(inmem.New(), "", dsstate.DefaultHandle())
+				if err != nil {
+					return err
+				}
+				if err := b.Unmarshal(&buf); err != nil {
+					opErr = fmt.Errorf("dump reported success but does not deserialise: %v", err)
+				} else if got, err = b.List(ctx); err != nil {
+					return err
+				}
+			}
+		case "snapshot":
+			cfg := raftCfg(filepath.Join(dir, "fraft"), 3)
+			_, id := keyFor("fault", e.seed, s.ID)
+			opErr = guard(func() error { return raft.SnapshotSave(cfg, a2, []peer.ID{id}) })
+			if opErr == nil {
+				ost, err := raft.OfflineState(cfg, inmem.New())
+				if err != nil {
+					opErr = fmt.Errorf("snapshot reported success but does not read back: %v", err)
+				} else if got, err = ost.List(ctx); err != nil {
+					return err
+				}
+			}
+		case "list":
+			opErr = guard(func() error {
+				var err error
+				got, err = a2.List(ctx)
+				return err
+			})
+			if opErr != nil {
+				got = nil
+			}
+		}
+		e.emit("sid", s.ID, "m", "xfer", "act", "Marshal", "via", via, "src", src, "fault", s.Fault, "ok", opErr == nil,
+			"got", n.projAll(got), "err", errStr(opErr), "ns", ns)
 	}
 	return nil
 }
@@ -1119,6 +1267,109 @@ func (e *env) runPstore(s *script) error {
 	return nil
 }
 
+// ---------------------------------------------------------------- (e) plock
+
+type seg struct {
+	L    string `json:"l"`
+	From int    `json:"from"`
+	To   int    `json:"to"`
+}
+
+// runPlock: SavePeerstore(list A) / SavePeerstore(list B) / LoadPeerstore of ONE Manager running
+// concurrently.  Every load result (and the final file) is projected to segments of the three lists
+// (Z = initial content) and judged by TLC (WholeSegs): no timing is asserted.
+func (e *env) runPlock(s *script) error {
+	ctx := context.Background()
+	dir, err := ioutil.TempDir(e.base, "plock-")
+	if err != nil {
+		return err
+	}
+	defer os.RemoveAll(dir)
+	path := filepath.Join(dir, "peerstore")
+	sizes := map[string]int{"Z": 3, "A": s.NA, "B": s.NB}
+	lists := map[string][]peer.AddrInfo{}
+	where := map[string]seg{} // address string -> (list, index)
+	for li, l := range []string{"Z", "A", "B"} {
+		for i := 1; i <= sizes[l]; i++ {
+			_, id := keyFor("plock", e.seed, l, (i-1)%7)
+			a, err := ma.NewMultiaddr(fmt.Sprintf("/ip4/10.%d.%d.%d/tcp/%d", li+1, i/250, i%250+1, 9000+li))
+			if err != nil {
+				return err
+			}
+			lists[l] = append(lists[l], peer.AddrInfo{ID: id, Addrs: []ma.Multiaddr{a}})
+			where[a.String()+"/p2p/"+peer.Encode(id)] = seg{L: l, From: i, To: i}
+		}
+	}
+	project := func(addrs []ma.Multiaddr) []seg {
+		out := []seg{}
+		for _, a := range addrs {
+			cur := seg{L: "?", From: 0, To: 0}
+			if a != nil {
+				if w, ok := where[a.String()]; ok {
+					cur = w
+				}
+			}
+			if k := len(out) - 1; k >= 0 && out[k].L == cur.L && cur.L != "?" && out[k].To+1 == cur.From {
+				out[k].To = cur.To
+			} else {
+				out = append(out, cur)
+			}
+		}
+		if len(out) > 40 {
+			out = out[:40]
+		}
+		return out
+	}
+	pm := pstoremgr.New(ctx, nil, path)
+	if err := pm.SavePeerstore(lists["Z"]); err != nil {
+		return err
+	}
+	var mu sync.Mutex
+	seen := map[string]int{}
+	record := func(act string, segs []seg) {
+		b, _ := json.Marshal(segs)
+		mu.Lock()
+		seen[act+string(b)]++
+		first := seen[act+string(b)] == 1
+		mu.Unlock()
+		if first { // identical results are judged once
+			e.emit("sid", s.ID, "m", "plock", "act", act, "segs", segs, "sizes", sizes)
+		}
+	}
+	for it := 0; it < s.Iters; it++ {
+		var wg sync.WaitGroup
+		startc := make(chan struct{})
+		run := func(f func()) {
+			wg.Add(1)
+			go func() {
+				defer wg.Done()
+				<-startc
+				f()
+			}()
+		}
+		run(func() { pm.SavePeerstore(lists["A"]) })
+		run(func() { pm.SavePeerstore(lists["B"]) })
+		for k := 0; k < 3; k++ {
+			run(func() {
+				for j := 0; j < 3; j++ {
+					record("CLoad", project(pm.LoadPeerstore()))
+				}
+			})
+		}
+		close(startc)
+		wg.Wait()
+		record("CFinal", project(pm.LoadPeerstore()))
+	}
+	mu.Lock()
+	total := 0
+	for _, c := range seen {
+		total += c
+	}
+	mu.Unlock()
+	e.res.Set("plock_loads_observed", total)
+	return nil
+}
+
 // ---------------------------------------------------------------- main
 
 func TestDriver(t *testing.T) {
@@ -1190,6 +1441,8 @@ func TestDriver(t *testing.T) {
 						err = e.runRot(s)
 					case "pstore":
 						err = e.runPstore(s)
+					case "plock":
+						err = e.runPlock(s)
 					default:
 						err = fmt.Errorf("unknown machine %q", s.M)
 					}
@@ -1198,7 +1451,7 @@ func TestDriver(t *testing.T) {
 					res.Infra("script %d (%s): %v", s.ID, s.M, err)
 				}
 				id := map[string]interface{}{"m": s.M, "kind": s.Kind, "path": s.Path, "src": s.Src, "tgt0": s.Tgt0,
-					"skind": s.SKind, "steps": s.Steps, "keep": s.Keep, "old": s.Old, "book": s.Book, "junk": s.Junk}
+					"skind": s.SKind, "steps": s.Steps, "keep": s.Keep, "old": s.Old, "book": s.Book, "junk": s.Junk, "fault": s.Fault, "iters": s.Iters, "na": s.NA, "nb": s.NB}
 				res.Case(id, s.NT)
 				res.Count(-1) // evaluations = recorded steps (counted in emit)
 			}
